@@ -2,6 +2,7 @@ import EqsigVerif.Model.Frequency
 import EqsigVerif.Lemmas.Cplx
 import EqsigVerif.Lemmas.Frequency
 import EqsigVerif.Lemmas.CplxC
+import EqsigVerif.Lemmas.Inverse
 /-!
 # C06 — Fourier amplitude spectrum is `dt ×` DFT of the zero-padded record, on the stated grid
 
@@ -15,10 +16,6 @@ set_option linter.unusedSectionVars false
 set_option linter.unusedVariables false
 namespace EqsigVerif.Props.C06
 open EqsigVerif EqsigVerif.Cplx EqsigVerif.Wire EqsigVerif.Model.Frequency Finset
-
-/-- the real subfield as a (degenerate) instance of `CxLike`, for concrete examples over `ℚ` -/
-@[reducible] def ratCxLike : CxLike ℚ ℚ :=
-  { ofReal := id, conj := id, re := id, im := fun _ => 0, normSq := fun x => x * x }
 
 /-! ## C06.a — transform length -/
 
@@ -321,6 +318,21 @@ theorem idft_dft (x : List ℂ) (N : ℕ) : idft twC (dft twC x N) N = padTo N x
 example : ∀ j, starRingEnd ℂ (([1, 2, 3] : List ℂ).getD j 0) = ([1, 2, 3] : List ℂ).getD j 0 := by
   intro j
   rcases j with _ | _ | _ | j <;> simp [map_ofNat]
+
+/-- **C06.g** (stretch, proved) `fas2values_spec`: for an even transform length `N = 2P`, a real record and
+`dt ≠ 0`, the inverse helper applied to the spectrum returns the padded/truncated record minus its mean
+and Nyquist components:
+`fas2values(fas(x), dt)[j] = x_j − (Σ_l x_l)/N − (−1)^j·(Σ_l (−1)^l x_l)/N`, `j < N`
+(DFT inversion + the two bins the one-sided spectrum does not carry; Hermitian symmetry of real records). -/
+theorem fas2values_spec (x : List ℂ) (dt : ℝ) (P : ℕ) (hP : 1 ≤ P) (hdt : dt ≠ 0)
+    (hx : ∀ j, starRingEnd ℂ (x.getD j 0) = x.getD j 0) :
+    ∃ s, fas2values twC (fasOf twC x dt (2 * P)) dt = .ok s ∧ s.length = 2 * P ∧
+      ∀ j, j < 2 * P → s.getD j 0 =
+        x.getD j 0 - (∑ l ∈ range (2 * P), x.getD l 0) / (2 * P : ℕ)
+          - (-1) ^ j * (∑ l ∈ range (2 * P), (-1) ^ l * x.getD l 0) / (2 * P : ℕ) := by
+  refine ⟨_, fas2values_fas_eq x dt P hP, by simp, ?_⟩
+  intro j hj
+  exact idft_zeroed x _ P hP (fun k hk => hermitian_fas_getD x dt P hP hdt hx k hk) j hj
 
 end OverC
 
